@@ -9,6 +9,8 @@ Ltac mdm :=
          | |- context [match ?x with _ => _ end] => destruct x eqn:?
          | |- context [if ?x then _ else _] => destruct x eqn:?
          end.
+(* robustness: a regenerated term that makes a tactic run away fails the proof (prove BROKEN) instead of hanging the build *)
+Set Default Timeout 300.
 Ltac munf := cbn [mstep]; unfold kderef, remove_value; cbv zeta.
 
 Lemma mm_rejected_call_is_identity s o s' : mstep s o = (s', MRej) -> s' = s.
